@@ -21,7 +21,15 @@ RULE = ("Every standard output type the library signs (P2PKH, P2SH m-of-n, P2WPK
         "flipped sighash byte, changed amount/output/sequence/locktime/outpoint, swapped scripts, truncated and "
         "annex-only witnesses, signature-free scriptSigs with opcodes or pushes around the redeem script, non-empty "
         "scriptSigs on witness outputs, witness programs pushed inside a scriptSig). Each case is verified by the "
-        "implementation and by the extracted model (model-level ECDSA/BIP340 on secp256k1).")
+        "implementation and by the extracted model (model-level ECDSA/BIP340 on secp256k1). Hand-assembled spends "
+        "(own serialiser, reference digests, own ECDSA/BIP340 signer with fixed nonces): every signer subset of "
+        "m-of-n OP_CHECKMULTISIG (bare, p2sh, p2wsh, p2sh-p2wsh) and k-of-n OP_CHECKSIG/OP_CHECKSIGADD leaves with a "
+        "different hash type per signature; stack depths at every signature op code (also on top of a non-empty "
+        "item); malformed, uncompressed and 32-byte keys inside scripts; leaves at depth 1..3 and 128/129 with "
+        "tampered control blocks; DER integers of 31/32/33 bytes; scripts at the push-opcode and compact-size "
+        "boundaries; two inputs with one script; nested witness programs. Library helpers: TapLeaf/TapBranch "
+        "control blocks, initialize/finalize_p2tr_multisig for every signer subset and their misuse, sign_input, "
+        "Tx.verify, library signatures whose r/s start with 00/01.")
 TRUSTED = ["the digests tx.sig_hash(i, hash_type) are taken from the implementation and handed to the model as a "
            "table (their correctness is property C05)",
            "hashlib for hash160/sha256/tagged hashes"]
@@ -241,6 +249,7 @@ def p_handmade_spend(kind_i, n_in, n_out, idx, hts, salt, nalt=0):
 
 PROPS = {"valid_spend": p_valid_spend, "unauthorised": p_unauthorised, "multisig_matching": p_multisig_matching,
          "reuse": p_reuse, "handmade_spend": p_handmade_spend}
+# (finalize_api, p2tr_api, lib_signed, tx_verify are registered below, where they are defined)
 
 
 # ----------------------------------------------------------------- building spends
@@ -271,13 +280,14 @@ def multisig_cmds(m, privs):
     return [0x50 + m] + secs + [0x50 + len(secs), 174]
 
 
-def build(kind, r, m=1, n=1, n_in=1):
-    """returns a Spend whose input idx is validly signed through the library API"""
+def build(kind, r, m=1, n=1, n_in=1, signers=None):
+    """returns a Spend whose input idx is validly signed through the library API (by the keys `signers`, default:
+    a random m-subset)"""
     idx = r.randrange(n_in)
     privs = [rpriv(r) for _ in range(n)]
     other = [P2PKHScriptPubKey(bytes(r.getrandbits(8) for _ in range(20))) for _ in range(n_in)]
     amounts = [r.randrange(60000, 10 ** 8) for _ in range(n_in)]
-    signers = sorted(r.sample(range(n), m))
+    signers = sorted(r.sample(range(n), m)) if not signers else sorted(signers)
     if kind == "p2pkh":
         spk = privs[0].point.p2pkh_script()
     elif kind == "p2wpkh":
@@ -344,8 +354,9 @@ def build(kind, r, m=1, n=1, n_in=1):
     return Spend(kind, tx, idx, **meta)
 
 
-def build_all(r, kinds):
-    """a transaction whose inputs (one per entry of kinds, single-key types) are ALL validly signed"""
+def build_all(r, kinds, via_sign_input=False):
+    """a transaction whose inputs (one per entry of kinds, single-key types) are ALL validly signed (through the
+    sign_* helpers or through the Tx.sign_input dispatcher)"""
     privs = [rpriv(r) for _ in kinds]
     spks = []
     for kind, p in zip(kinds, privs):
@@ -354,7 +365,12 @@ def build_all(r, kinds):
                      "p2tr-key": p.point.p2tr_script}[kind]())
     tx = new_tx(r, spks, [r.randrange(60000, 10 ** 8) for _ in kinds], n_out=2)
     for i, (kind, p) in enumerate(zip(kinds, privs)):
-        if kind == "p2pkh":
+        if via_sign_input:
+            if kind == "p2sh-p2wpkh":
+                quiet(tx.sign_input, i, p, p.point.p2sh_p2wpkh_redeem_script())
+            else:
+                quiet(tx.sign_input, i, p.tweaked_key() if kind == "p2tr-key" else p)
+        elif kind == "p2pkh":
             quiet(tx.sign_p2pkh, i, p)
         elif kind == "p2wpkh":
             quiet(tx.sign_p2wpkh, i, p)
@@ -483,6 +499,13 @@ def mutations(r, sp):
         else:
             i2.witness = Witness([i2.witness.items[-1]])
         yield "signature-free spend (script only)", t2, True
+        for junk in ([b"\x01"], [b"\x01"] * (sp.meta["m"] + 1), [b"\x01"] * (sp.meta["m"] + 2)):
+            t2, i2 = clone(sp)
+            if kind == "p2sh":
+                i2.script_sig = Script(list(junk) + [i2.script_sig.commands[-1]])
+            else:
+                i2.witness = Witness(list(junk) + [i2.witness.items[-1]])
+            yield "signature-free spend (%d non-empty item(s) and the script)" % len(junk), t2, True
     if kind == "p2sh":
         raw = ti.script_sig.commands[-1]
         for label, cmds in (("<redeem> OP_NOP", [raw, 0x61]), ("OP_1 <redeem> OP_NOP", [0x51, raw, 0x61]),
@@ -576,6 +599,1125 @@ def mutations(r, sp):
         yield "truncated witness", t2, None       # depends on which item was dropped: correspondence only
 
 
+# ----------------------------------------------------------------- hand-assembled spends (independent builder)
+# Nothing of the signing side under test is used to BUILD these cases: transactions are serialised here, the
+# digests come from the reference implementation in props/c05.py (written from the BIP texts), scripts, control
+# blocks and taproot commitments are assembled from hashlib, and ECDSA / BIP340 signatures are computed here from
+# FIXED nonces (s = (z + r d) / k resp. s = k + e d: signing costs no curve operation).  The only library code a
+# case is built with is the curve arithmetic of buidl.pecc (d*G once per pool, P+Q).
+
+import hashlib as _hl
+
+from props import c05 as _c05
+
+N_ORD = 0xFFFFFFFFFFFFFFFFFFFFFFFFFFFFFFFEBAAEDCE6AF48A03BBFD25E8CD0364141
+P_FLD = 2 ** 256 - 2 ** 32 - 977
+HT_ECDSA = (1, 2, 3, 0x81, 0x82, 0x83)
+HT_SCHNORR = (0, 1, 2, 3, 0x81, 0x82, 0x83)
+S = _c05.S
+
+
+def _sha(b):
+    return _hl.sha256(b).digest()
+
+
+def _h160(b):
+    return _hl.new("ripemd160", _sha(b)).digest()
+
+
+def _tag(t, m):
+    th = _sha(t.encode())
+    return _sha(th + th + m)
+
+
+def _b32(v):
+    return v.to_bytes(32, "big")
+
+
+def der_int(v, pad=0):
+    b = v.to_bytes(max(1, (v.bit_length() + 7) // 8), "big")
+    if b[0] & 0x80:
+        b = b"\x00" + b
+    b = b"\x00" * pad + b
+    return b"\x02" + bytes([len(b)]) + b
+
+
+def der(r, s, rpad=0, spad=0):
+    body = der_int(r, rpad) + der_int(s, spad)
+    return b"\x30" + bytes([len(body)]) + body
+
+
+class HKey:
+    """a key pair together with ONE fixed nonce pair (k, R = kG)"""
+
+    def __init__(self, d, P, k, R):
+        self.d, self.k, self.P, self.R = d, k, P, R
+        self.px, self.py, self.rx, self.ry = P.x.num, P.y.num, R.x.num, R.y.num
+
+    def sec(self, compressed=True, prefix=None):
+        if compressed:
+            return bytes([2 + (self.py & 1) if prefix is None else prefix]) + _b32(self.px)
+        return bytes([4 if prefix is None else prefix]) + _b32(self.px) + _b32(self.py)
+
+    def xonly(self):
+        return _b32(self.px)
+
+    def rs(self, z, high_s=False):
+        r = self.rx % N_ORD
+        s = (z + r * self.d) * pow(self.k, -1, N_ORD) % N_ORD
+        if (s > N_ORD // 2) != high_s:
+            s = N_ORD - s
+        return r, s
+
+    def ecdsa(self, z, ht, high_s=False):
+        return der(*self.rs(z, high_s)) + bytes([ht])
+
+    def schnorr(self, msg, ht):
+        d = self.d if self.py % 2 == 0 else N_ORD - self.d
+        k = self.k if self.ry % 2 == 0 else N_ORD - self.k
+        e = int.from_bytes(_tag("BIP0340/challenge", _b32(self.rx) + _b32(self.px) + msg), "big") % N_ORD
+        sig = _b32(self.rx) + _b32((k + e * d) % N_ORD)
+        return sig if ht == 0 else sig + bytes([ht])
+
+    def even_point(self):
+        from buidl.pecc import S256Point
+        return self.P if self.py % 2 == 0 else S256Point(self.px, P_FLD - self.py)
+
+    def tweak_t(self, root=b""):
+        return int.from_bytes(_tag("TapTweak", _b32(self.px) + root), "big")
+
+    def tweak_point(self, root=b""):
+        from buidl.pecc import G
+        return self.tweak_t(root) * G + self.even_point()
+
+    def tweaked(self, root=b""):
+        """the key pair of the taproot output key Q = lift_x(P) + tG (same nonce)"""
+        d = self.d if self.py % 2 == 0 else N_ORD - self.d
+        return HKey((d + self.tweak_t(root)) % N_ORD, self.tweak_point(root), self.k, self.R)
+
+    def renonce(self, pred, limit=4000):
+        """the same key with the next nonce k+i whose R satisfies pred(HKey) (R + G per step: no multiplication)"""
+        from buidl.pecc import G
+        k, R = self.k, self.R
+        for _ in range(limit):
+            k, R = k + 1, R + G
+            c = HKey(self.d, self.P, k, R)
+            if pred(c):
+                return c
+        return None
+
+
+_POOLS = {}
+
+
+def key_pool(seed, count=7):
+    """count key pairs d0+i with nonces k0+i (two scalar multiplications in all); both y parities occur"""
+    if seed in _POOLS:
+        return _POOLS[seed]
+    import random
+    from buidl.pecc import G
+    r = random.Random("c06-keys:%d" % seed)
+    d, k = r.randrange(2 ** 200, N_ORD - 2 ** 64), r.randrange(2 ** 200, N_ORD - 2 ** 64)
+    P, R = d * G, k * G
+    keys = []
+    while len(keys) < count or len({x.py & 1 for x in keys}) < 2:
+        keys.append(HKey(d, P, k, R))
+        d, k, P, R = d + 1, k + 1, P + G, R + G
+    _POOLS.clear()
+    _POOLS[seed] = keys
+    return keys
+
+
+def ser_tx(txv):
+    """segwit serialisation of a transaction value [version, ins, outs, locktime] (c05 conventions)"""
+    c = _c05
+    ver, ins, outs, lt = txv
+    out = c._u32(ver) + b"\x00\x01" + c._cs(len(ins))
+    for pt, pi, sc, sq, _w in ins:
+        out += pt[::-1] + c._u32(pi) + c._sscript(c.ref_raw_script(sc)) + c._u32(sq)
+    out += c._cs(len(outs))
+    for am, sc in outs:
+        out += c._i64(am) + c._sscript(c.ref_raw_script(sc))
+    for _pt, _pi, _sc, _sq, w in ins:
+        out += c._cs(len(w)) + b"".join(c._cs(len(x)) + x for x in w)
+    return out + c._u32(lt)
+
+
+def _push(items):
+    return [x if x != b"" else 0 for x in items]
+
+
+def wrap_script(kind, cmds):
+    """(scriptPubKey commands, place) for the script `cmds` spent bare or through a script hash;
+    place(stack items) -> (scriptSig commands, witness items)"""
+    raw = _c05.ref_raw_script(S(cmds))
+    if kind == "bare":
+        return list(cmds), (lambda items: (_push(items), []))
+    if kind == "p2sh":
+        return [0xa9, _h160(raw), 0x87], (lambda items: (_push(items) + [raw], []))
+    if kind == "p2wsh":
+        return [0, _sha(raw)], (lambda items: ([], list(items) + [raw]))
+    if kind == "p2sh-p2wsh":
+        redeem = b"\x00\x20" + _sha(raw)
+        return [0xa9, _h160(redeem), 0x87], (lambda items: ([redeem], list(items) + [raw]))
+    raise ValueError(kind)
+
+
+def tap_leaf_hash(raw, ver=0xc0):
+    return _tag("TapLeaf", bytes([ver]) + _c05._cs(len(raw)) + raw)
+
+
+def tap_branch(a, b):
+    return _tag("TapBranch", min(a, b) + max(a, b))
+
+
+def wrap_tap(cmds, internal, path=(), annex=None, ver=0xc0):
+    """(scriptPubKey commands, place, control block) of a script-path spend of the leaf `cmds` under the sibling
+    hashes `path`"""
+    raw = _c05.ref_raw_script(S(cmds))
+    h = tap_leaf_hash(raw, ver)
+    for sib in path:
+        h = tap_branch(h, sib)
+    Q = internal.tweak_point(h)
+    cb = bytes([ver | (Q.y.num & 1)]) + internal.xonly() + b"".join(path)
+    tail = [raw, cb] + ([annex] if annex else [])
+    return [0x51, _b32(Q.x.num)], (lambda items: ([], list(items) + tail)), cb
+
+
+SHAPES = [(2, 2, 1), (3, 3, 2), (1, 1, 0), (2, 3, 0), (3, 3, 1), (3, 1, 2)]
+
+
+class HSpend:
+    """one input of a hand-made transaction"""
+
+    def __init__(self, r, spk_cmds, place, shape):
+        rb = lambda n: bytes(r.getrandbits(8) for _ in range(n))       # noqa: E731
+        n_in, n_out, idx = shape
+        self.idx, self.place = idx, place
+        self.ins = [[rb(32), r.randrange(0, 4), S([]), r.choice([0xffffffff, 0xfffffffe, 0, 5]), []]
+                    for _ in range(n_in)]
+        self.spent = [[r.randrange(600, 10 ** 8), S([0x76, 0xa9, rb(20), 0x88, 0xac])] for _ in range(n_in)]
+        self.outs = [[r.randrange(600, 10 ** 6), S([0x76, 0xa9, rb(20), 0x88, 0xac])] for _ in range(n_out)]
+        self.spent[idx][1] = S(spk_cmds)
+        self.lock = r.choice([0, 0, 499999999, 1700000000])
+        self.single_ok = idx < n_out
+
+    def value(self, items):
+        ss, wit = self.place(items)
+        ins = [list(i) for i in self.ins]
+        ins[self.idx][2], ins[self.idx][4] = S(ss), list(wit)
+        return [2, ins, self.outs, self.lock]
+
+    def ht(self, ht):
+        """SIGHASH_SINGLE needs a matching output (otherwise ALL / ALL|ANYONECANPAY is used)"""
+        return ht if self.single_ok or ht & 3 != 3 else (ht & 0x80) | 1
+
+    def digest(self, ht, items):
+        d = _c05.ref_sig_hash(self.value(items), self.spent, self.idx, ht)
+        if d is None:
+            raise ValueError("the reference defines no digest for this spend")
+        return d[2]
+
+    def ctx(self, items):
+        return [ser_tx(self.value(items)), self.idx, [[a, _c05.ref_raw_script(s)] for a, s in self.spent]]
+
+
+def subset_plan(quick):
+    """(n, k, signers): every k-subset of the n keys for n <= 3 (thorough: n <= 5), so that every key position is
+    once a signing and once a non-signing one; quick tier, n = 4: the new last position signing alone and alone not
+    signing, the first one alone not signing, all four"""
+    full = 3 if quick else 5
+    out = []
+    for n in range(1, 6):
+        for k in range(1, n + 1):
+            combs = list(combinations(range(n), k))
+            if n > full:
+                combs = {(4, 1): [(3,)], (4, 3): [(0, 1, 2), (1, 2, 3)], (4, 4): combs}.get((n, k), [])
+            out += [(n, k, c) for c in combs]
+    return out
+
+
+def gen_subsets(ctx):
+    """m-of-n OP_CHECKMULTISIG and k-of-n tapscript OP_CHECKSIGADD spends with ENUMERATED signer subsets: every
+    key position is once a signing and once a non-signing one; the signatures of one input carry different hash
+    types, keys are compressed and uncompressed, the tapscript keys are NOT sorted, with and without annex / sibling"""
+    r = ctx.rng
+    quick = ctx.tier == "quick"
+    keys = key_pool(ctx.seed)
+    kinds = ["p2sh", "p2wsh", "bare", "p2sh-p2wsh"]
+    for c, (n, k, sub) in enumerate(subset_plan(quick)):
+        ks = [keys[(c + j) % len(keys)] for j in range(n)]
+        # ---- OP_CHECKMULTISIG
+        kind = kinds[c % 4]
+        secs = [key.sec(compressed=(c + j) % 3 != 0) for j, key in enumerate(ks)]
+        spk, place = wrap_script(kind, [0x50 + k] + secs + [0x50 + n, 0xae])
+        sp = HSpend(r, spk, place, SHAPES[c % len(SHAPES)])
+        ph = [b""] + [b"\x30" * 71] * k
+        sigs = []
+        for j, i in enumerate(sub):
+            ht = sp.ht(HT_ECDSA[(c + j) % 6])
+            sigs.append(ks[i].ecdsa(sp.digest(ht, ph), ht))
+        cx = sp.ctx([b""] + sigs)
+        ctx.label("subset/checkmultisig/%d-of-%d" % (k, n))
+        ctx.label("subset/kind/" + kind)
+        yield ("prop", "valid_spend", [cx])
+        if not quick or c % 8 == 0:
+            yield ("corr", "verify_input", model_args(cx))
+        if k == 2 and sub == (0, 1) and (not quick or n == 3):
+            z1 = sp.digest(1, ph)
+            f1 = keys[(c + n) % len(keys)].ecdsa(z1, 1)
+            for lab, bad in (("one signature twice", [sigs[0], sigs[0]]), ("a foreign second signature", [sigs[0], f1]),
+                             ("a foreign first signature", [f1, sigs[1]])):
+                ctx.label("subset/checkmultisig/unauthorised")
+                yield ("prop", "unauthorised", [sp.ctx([b"\x01", b""] + bad), "2-of-%d multisig with %s, on top of a "
+                                                "non-empty item" % (n, lab)])
+            yield ("corr", "verify_input", model_args(sp.ctx([b"\x01", b"", sigs[1], sigs[0]])))      # wrong order
+        # ---- OP_CHECKSIG / OP_CHECKSIGADD leaf
+        xs = [key.xonly() for key in ks]
+        cmds = [xs[0], 0xac]
+        for x in xs[1:]:
+            cmds += [x, 0xba]
+        if n > 1 or c % 2:
+            cmds += [0x50 + k, 0x87 if c % 3 else 0x9c]
+        annex = (b"\x50" + bytes(r.getrandbits(8) for _ in range(c % 4))) if c % 3 == 0 else None
+        path = [bytes(r.getrandbits(8) for _ in range(32))] if c % 4 == 1 else []
+        spk, place, _cb = wrap_tap(cmds, keys[(c + n) % len(keys)], path, annex)
+        sp = HSpend(r, spk, place, SHAPES[(c + 2) % len(SHAPES)])
+        items = [b""] * n
+        for j, i in enumerate(sub):
+            ht = sp.ht(HT_SCHNORR[(c + j) % 7])
+            items[n - 1 - i] = ks[i].schnorr(sp.digest(ht, [b""] * n), ht)
+        cx = sp.ctx(items)
+        ctx.label("subset/checksigadd/%d-of-%d" % (k, n))
+        yield ("prop", "valid_spend", [cx])
+        if not quick or c % 8 == 4:
+            yield ("corr", "verify_input", model_args(cx))
+        # ---- the same leaf with too few / misplaced signatures
+        if k >= 2 and (not quick or sub == (0, 1)) and sub[0] + 1 == sub[1]:
+            a, b = n - 1 - sub[0], n - 1 - sub[1]
+            bad = list(items)
+            bad[a], bad[b] = bad[b], bad[a]
+            ctx.label("subset/checksigadd/exchanged-slots")
+            yield ("prop", "unauthorised", [sp.ctx(bad), "tapscript signatures of two keys put in each other's slot"])
+            bad = list(items)
+            bad[a] = b""
+            ctx.label("subset/checksigadd/k-1")
+            yield ("prop", "unauthorised", [sp.ctx(bad), "k-1 tapscript signatures"])
+        if k < n and (not quick or (n, k) == (3, 2)) and sub == tuple(range(k)):
+            more = list(items)
+            ht = sp.ht(1)
+            more[n - 1 - k] = ks[k].schnorr(sp.digest(ht, [b""] * n), ht)
+            ctx.label("subset/checksigadd/k+1")
+            yield ("corr", "verify_input", model_args(sp.ctx(more)))        # k+1 valid signatures: EQUAL k fails
+
+
+class _Emit:
+    """yields the cases of one hand-made spend: verdict True -> valid_spend, False -> unauthorised, None -> the
+    model decides (correspondence only); corr=True adds the correspondence case to a predicate case"""
+
+    def __init__(self, ctx, junk=False):
+        self.ctx, self.junk, self.n = ctx, junk, ctx.seed
+
+    def __call__(self, sp, items, verdict, label, corr=False, junk=None):
+        cx = sp.ctx(items)
+        self.ctx.label("handmade/" + label[:60])
+        if verdict is True:
+            yield ("prop", "valid_spend", [cx])
+        elif verdict is False:
+            yield ("prop", "unauthorised", [cx, label])
+        if corr and verdict is not None and self.ctx.tier == "quick":
+            self.n += 1                      # quick tier: every third of the doubled (predicate + model) cases
+            corr = self.n % 3 == 0
+        if verdict is None or corr:
+            yield ("corr", "verify_input", model_args(cx))
+        if (verdict is False and (self.junk if junk is None else junk)) or (verdict is None and junk):
+            # the same items on top of a NON-EMPTY item: an op code that fails without pushing, or whose failure is
+            # swallowed, must not leave that item to decide the script
+            cx = sp.ctx([b"\x01"] + list(items))
+            self.ctx.label("handmade/non-empty item below")
+            if verdict is False:
+                yield ("prop", "unauthorised", [cx, label + " (on top of a non-empty item)"])
+            else:
+                yield ("corr", "verify_input", model_args(cx))
+
+
+def gen_stack_bounds(ctx):
+    """the stack-depth guards of OP_CHECKSIG(VERIFY) / OP_CHECKMULTISIG(VERIFY) / tapscript OP_CHECKSIG(VERIFY) /
+    OP_CHECKSIGADD: too few items, exactly enough, one more; missing dummy element, missing m, n beyond the keys,
+    m beyond n, 0-of-n"""
+    r = ctx.rng
+    quick = ctx.tier == "quick"
+    keys = key_pool(ctx.seed)
+    K0, K1, K2 = keys[0], keys[1], keys[2]
+    emit = _Emit(ctx, junk=True)
+    cnt = [0]
+
+    def spend(kind, cmds):
+        cnt[0] += 1
+        spk, place = wrap_script(kind, cmds)
+        return HSpend(r, spk, place, SHAPES[cnt[0] % len(SHAPES)])
+
+    def sig(sp, key, n_items, ht=1):
+        ht = sp.ht(ht)
+        return key.ecdsa(sp.digest(ht, [b"\x30" * 71] * n_items), ht)
+
+    sec0, sec1 = K0.sec(), K1.sec(compressed=False)
+    # ---- OP_CHECKSIG with the key taken from the stack
+    for kind in ("p2wsh", "bare") if quick else ("p2wsh", "bare", "p2sh", "p2sh-p2wsh"):
+        sp = spend(kind, [0xac])
+        sg = sig(sp, K0, 2, 0x83)
+        yield from emit(sp, [], False, "OP_CHECKSIG on an empty stack")
+        yield from emit(sp, [sec0], False, "OP_CHECKSIG with the key only")
+        yield from emit(sp, [sg], False, "OP_CHECKSIG with the signature only")
+        yield from emit(sp, [sg, sec0], True, "OP_CHECKSIG with signature and key", corr=True)
+        yield from emit(sp, [b"\x01", sg, sec0], None, "OP_CHECKSIG with an item below signature and key")
+        yield from emit(sp, [sec0, sg], False, "OP_CHECKSIG with key and signature exchanged")
+    # ---- key in the script
+    sp = spend("p2sh", [sec1, 0xac])
+    yield from emit(sp, [], False, "<key> OP_CHECKSIG without a signature item")
+    yield from emit(sp, [sig(sp, K1, 1, 2)], True, "<key> OP_CHECKSIG with a signature")
+    yield from emit(sp, [sig(sp, K0, 1, 2)], False, "<key> OP_CHECKSIG with another key's signature")
+    # ---- the other families of op codes Script.evaluate dispatches on (OP_IF: command list, alt stack)
+    sp = spend("p2wsh", [0x51, 0x63, 0, 0x64, sec0, 0x6b, 0x6c, 0xac, 0x68, 0x68])
+    yield from emit(sp, [sig(sp, K0, 1, 0x81)], True,
+                    "OP_1 OP_IF OP_0 OP_NOTIF <key> OP_TOALTSTACK OP_FROMALTSTACK OP_CHECKSIG OP_ENDIF OP_ENDIF", corr=True)
+    yield from emit(sp, [], False, "OP_1 OP_IF OP_0 OP_NOTIF <key> OP_TOALTSTACK OP_FROMALTSTACK OP_CHECKSIG OP_ENDIF OP_ENDIF unsigned")
+    # ---- the value a signature op code pushes
+    sp = spend("p2wsh", [sec0, 0xac, 0x51, 0x87])
+    yield from emit(sp, [sig(sp, K0, 1, 0x82)], True, "<key> OP_CHECKSIG OP_1 OP_EQUAL with a signature")
+    sp = spend("p2sh", [0x51, sec0, 0x51, 0xae, 0x51, 0x87])
+    yield from emit(sp, [b"", sig(sp, K0, 2, 3)], True, "1-of-1 OP_CHECKMULTISIG OP_1 OP_EQUAL with a signature")
+    # ---- OP_CHECKSIGVERIFY / OP_CHECKMULTISIGVERIFY
+    sp = spend("p2wsh", [sec0, 0xad, 0x51])
+    good = sig(sp, K0, 1, 3)
+    yield from emit(sp, [good], True, "<key> OP_CHECKSIGVERIFY OP_1 with a signature")
+    yield from emit(sp, [sig(sp, K2, 1, 3)], False, "<key> OP_CHECKSIGVERIFY OP_1 with a foreign signature", corr=True)
+    yield from emit(sp, [], False, "<key> OP_CHECKSIGVERIFY OP_1 without items")
+    sp = spend("p2sh", [0x51, sec0, 0x51, 0xaf, 0x51])
+    yield from emit(sp, [b"", sig(sp, K0, 2)], True, "1-of-1 OP_CHECKMULTISIGVERIFY OP_1 with a signature")
+    yield from emit(sp, [b"", sig(sp, K1, 2)], False, "1-of-1 OP_CHECKMULTISIGVERIFY OP_1 with a foreign signature",
+                    corr=True)
+    yield from emit(sp, [b""], False, "1-of-1 OP_CHECKMULTISIGVERIFY OP_1 with the dummy only")
+    # ---- OP_CHECKMULTISIG 1-of-2: depth of the stack below the keys
+    for kind in ("p2wsh", "p2sh"):
+        sp = spend(kind, [0x51, sec0, sec1, 0x52, 0xae])
+        sg = sig(sp, K0, 2, 0x82)
+        yield from emit(sp, [], False, "1-of-2 OP_CHECKMULTISIG with no stack item")
+        yield from emit(sp, [b""], False, "1-of-2 OP_CHECKMULTISIG with the dummy only")
+        yield from emit(sp, [sg], None, "1-of-2 OP_CHECKMULTISIG without the dummy element")
+        yield from emit(sp, [b"", sg], True, "1-of-2 OP_CHECKMULTISIG with dummy and signature")
+        yield from emit(sp, [sg, b""], False, "1-of-2 OP_CHECKMULTISIG with signature and dummy exchanged")
+        yield from emit(sp, [b"", b"", sg], None, "1-of-2 OP_CHECKMULTISIG with an extra item below the dummy")
+        yield from emit(sp, [b"\x01", sg], None, "1-of-2 OP_CHECKMULTISIG with a non-null dummy")
+        if quick:
+            break
+    sp = spend("p2wsh", [sec0, sec1, 0x52, 0xae])
+    sg = sig(sp, K0, 3)
+    yield from emit(sp, [], False, "<k0> <k1> 2 OP_CHECKMULTISIG (no m) with no item")
+    yield from emit(sp, [b"\x01"], False, "<k0> <k1> 2 OP_CHECKMULTISIG (no m) with m only")
+    yield from emit(sp, [b"", sg, b"\x01"], None, "<k0> <k1> 2 OP_CHECKMULTISIG with m supplied by the spender")
+    sp = spend("p2wsh", [0xae])
+    yield from emit(sp, [], False, "OP_CHECKMULTISIG on an empty stack")
+    yield from emit(sp, [b""], False, "OP_CHECKMULTISIG with n = 0 only")
+    yield from emit(sp, [b"", b"", b""], None, "OP_CHECKMULTISIG with 0-of-0 from the witness")
+    sp = spend("p2sh", [0x51, sec0, 0x53, 0xae])
+    yield from emit(sp, [b"", sig(sp, K0, 2)], None, "1 <k0> 3 OP_CHECKMULTISIG (n beyond the keys)", junk=True)
+    sp = spend("p2wsh", [0, sec0, 0x51, 0xae])
+    yield from emit(sp, [b""], None, "0-of-1 OP_CHECKMULTISIG")
+    yield from emit(sp, [], False, "0-of-1 OP_CHECKMULTISIG without the dummy element", junk=False)
+    sp = spend("p2sh", [0x52, sec0, 0x51, 0xae])
+    sg = sig(sp, K0, 3)
+    yield from emit(sp, [b"", sg, sg], False, "2-of-1 OP_CHECKMULTISIG with one signature twice", corr=True)
+    sp = spend("p2wsh", [0x52, sec0, sec0, 0x52, 0xae])
+    sg = sig(sp, K0, 3)
+    yield from emit(sp, [b"", sg, sg], None, "2-of-2 OP_CHECKMULTISIG over one key twice")
+    # ---- tapscript
+    x0, x1 = K0.xonly(), K1.xonly()
+
+    def tspend(cmds, path=(), annex=None):
+        cnt[0] += 1
+        spk, place, _cb = wrap_tap(cmds, K2, path, annex)
+        return HSpend(r, spk, place, SHAPES[cnt[0] % len(SHAPES)])
+
+    def tsig(sp, key, n_items, ht=0):
+        ht = sp.ht(ht)
+        return key.schnorr(sp.digest(ht, [b""] * n_items), ht)
+
+    sp = tspend([x0, 0xac, x1, 0xba, 0x51, 0x87])
+    yield from emit(sp, [], False, "tapscript 1-of-2 without items")
+    yield from emit(sp, [b""], False, "tapscript 1-of-2 with one empty item")
+    yield from emit(sp, [b"", b""], False, "tapscript 1-of-2 with two empty items")
+    yield from emit(sp, [tsig(sp, K0, 1, 0x81)], None, "tapscript 1-of-2 with one item (a valid signature) only")
+    v1 = tsig(sp, K1, 2, 2)
+    yield from emit(sp, [v1, b""], True, "tapscript 1-of-2 signed by the second key", corr=True)
+    yield from emit(sp, [v1, tsig(sp, K2, 2)], None, "tapscript 1-of-2: valid second signature, foreign first one")
+    yield from emit(sp, [tsig(sp, K2, 2, 1), tsig(sp, K0, 2, 1)], None,
+                    "tapscript 1-of-2: valid first signature, foreign second one")
+    yield from emit(sp, [tsig(sp, K2, 2, 1), tsig(sp, K2, 2)], False, "tapscript 1-of-2: two foreign signatures")
+    sp = tspend([x0, 0xba])
+    s0 = tsig(sp, K0, 2, 3)
+    yield from emit(sp, [s0, b""], True, "<sig> 0 <key> OP_CHECKSIGADD")
+    yield from emit(sp, [s0], None, "<sig> <key> OP_CHECKSIGADD (no counter)")
+    yield from emit(sp, [s0, b"\x01"], None, "<sig> 1 <key> OP_CHECKSIGADD")
+    yield from emit(sp, [b"", b""], False, "<empty> 0 <key> OP_CHECKSIGADD", corr=True)
+    yield from emit(sp, [b"", b"\x01"], None, "<empty> 1 <key> OP_CHECKSIGADD")
+    yield from emit(sp, [b"\x01", b"", b""], False, "1 <empty> 0 <key> OP_CHECKSIGADD", corr=True)
+    sp = tspend([x0, 0xad, 0x51], annex=b"\x50")
+    yield from emit(sp, [tsig(sp, K0, 1, 1)], True, "tapscript <key> OP_CHECKSIGVERIFY OP_1 with a signature")
+    yield from emit(sp, [b""], False, "tapscript <key> OP_CHECKSIGVERIFY OP_1 with an empty signature")
+    yield from emit(sp, [], False, "tapscript <key> OP_CHECKSIGVERIFY OP_1 without items")
+    yield from emit(sp, [tsig(sp, K1, 1, 1)], False, "tapscript <key> OP_CHECKSIGVERIFY OP_1 with a foreign signature")
+    # ---- leaves that end with an empty stack
+    sp = tspend([])
+    yield from emit(sp, [], False, "tapscript: empty leaf script", corr=True, junk=False)
+    sp = tspend([x0, 0xad])
+    yield from emit(sp, [tsig(sp, K0, 1)], None, "tapscript <key> OP_CHECKSIGVERIFY alone with a signature", junk=False)
+    sp = tspend([0xac])
+    s0 = tsig(sp, K0, 2)
+    yield from emit(sp, [s0, x0], True, "tapscript OP_CHECKSIG with signature and key from the witness")
+    yield from emit(sp, [x0], False, "tapscript OP_CHECKSIG with the key only")
+    yield from emit(sp, [s0], False, "tapscript OP_CHECKSIG with the signature only")
+
+
+def gen_bad_keys(ctx):
+    """public keys of the wrong length / prefix / not on the curve inside scripts, 32-byte keys in legacy scripts,
+    uncompressed keys; x-only keys of the wrong length in tapscript"""
+    r = ctx.rng
+    quick = ctx.tier == "quick"
+    keys = key_pool(ctx.seed)
+    odd = [k for k in keys if k.py & 1][0]
+    even = [k for k in keys if not k.py & 1][0]
+    emit = _Emit(ctx)
+    cnt = [0]
+
+    def spend(kind, cmds):
+        cnt[0] += 1
+        spk, place = wrap_script(kind, cmds)
+        return HSpend(r, spk, place, SHAPES[cnt[0] % len(SHAPES)])
+
+    def sig(sp, key, n_items, ht=1):
+        return key.ecdsa(sp.digest(ht, [b"\x30" * 71] * n_items), ht)
+
+    xo, xe = _b32(odd.px), _b32(even.px)
+    off_x = next(x for x in range(odd.px + 1, odd.px + 200)
+                 if pow((pow(x, 3, P_FLD) + 7) % P_FLD, (P_FLD - 1) // 2, P_FLD) != 1)
+    bad = [("34 bytes", odd.sec() + b"\x00"), ("31 bytes", odd.sec()[:31]), ("empty", b""),
+           ("33 bytes prefix 05", b"\x05" + xo), ("33 bytes prefix 04", b"\x04" + xo), ("33 bytes prefix 00", b"\x00" + xo),
+           ("65 bytes prefix 02", odd.sec(False, 2)), ("65 bytes prefix 07", odd.sec(False, 7)),
+           ("65 bytes not on the curve", b"\x04" + xo + _b32(odd.py ^ 1)),
+           ("33 bytes x not on the curve", b"\x02" + _b32(off_x)), ("33 bytes x = p", b"\x03" + _b32(P_FLD)),
+           ("64 bytes", xo + _b32(odd.py))]
+    # ---- inside OP_CHECKMULTISIG: before and after the key that signs
+    for j, (name, bk) in enumerate(bad):
+        if quick and j % 2 != ctx.seed % 2 and j > 5:
+            continue
+        for pos in (0, 1):
+            if quick and pos == 0 and j not in (0, 3, 6):
+                continue
+            ks = [even.sec(), even.sec()]
+            ks[pos] = bk
+            sp = spend(("p2wsh", "p2sh", "bare")[(j + pos) % 3], [0x51] + ks + [0x52, 0xae])
+            yield from emit(sp, [b"", sig(sp, even, 2)], None,
+                            "1-of-2 multisig, %s key %s the signing key" % (name, "before" if pos == 0 else "after"),
+                            junk=(j + pos) % 2 == 0)
+    # ---- good encodings
+    sp = spend("p2sh", [0x51, odd.sec(False), even.sec(False), 0x52, 0xae])
+    yield from emit(sp, [b"", sig(sp, even, 2)], True, "1-of-2 multisig over uncompressed keys", corr=True)
+    sp = spend("p2wsh", [0x51, xe, 0x51, 0xae])
+    yield from emit(sp, [b"", sig(sp, even, 2)], None, "1-of-1 multisig over a 32-byte key (even y)")
+    sp = spend("p2wsh", [0x51, xo, 0x51, 0xae])
+    yield from emit(sp, [b"", sig(sp, odd, 2)], None, "1-of-1 multisig over a 32-byte key (odd y)")
+    # ---- single key: p2pkh / p2wpkh over the hash of a malformed key, signature by the key it resembles
+    for j, (name, bk, key) in enumerate([("33 bytes prefix 05", b"\x05" + xo, odd), ("33 bytes prefix 04", b"\x04" + xo, odd),
+                                         ("prefix of the other parity", b"\x02" + xo, odd),
+                                         ("prefix of the other parity", b"\x03" + xe, even),
+                                         ("34 bytes", odd.sec() + b"\x00", odd), ("33 bytes prefix 01", b"\x01" + xe, even)]):
+        cnt[0] += 1
+        if (j + ctx.seed) % 2:
+            sp = HSpend(r, [0x76, 0xa9, _h160(bk), 0x88, 0xac], (lambda items: (_push(items), [])), SHAPES[cnt[0] % 6])
+            what = "p2pkh"
+        else:
+            sp = HSpend(r, [0, _h160(bk)], (lambda items: ([], list(items))), SHAPES[cnt[0] % 6])
+            what = "p2wpkh"
+        yield from emit(sp, [sig(sp, key, 2), bk], False, "%s over a malformed key (%s)" % (what, name), corr=True)
+    cnt[0] += 1
+    usec = odd.sec(False)
+    sp = HSpend(r, [0x76, 0xa9, _h160(usec), 0x88, 0xac], (lambda items: (_push(items), [])), SHAPES[cnt[0] % 6])
+    yield from emit(sp, [sig(sp, odd, 2, 0x81), usec], True, "p2pkh over an uncompressed key", corr=True)
+    # ---- tapscript keys
+    tk = [("31 bytes", xe[1:]), ("33 bytes", xe + b"\x00"), ("x = 0", bytes(32)), ("x = p", _b32(P_FLD)),
+          ("x not on the curve", _b32(off_x)), ("empty", b"")]
+    for j, (name, bk) in enumerate(tk):
+        cnt[0] += 1
+        spk, place, _cb = wrap_tap([bk if bk else 0, 0xac], keys[3])
+        sp = HSpend(r, spk, place, SHAPES[cnt[0] % 6])
+        yield from emit(sp, [even.schnorr(sp.digest(0, [b""]), 0)], None, "tapscript OP_CHECKSIG over a key of %s" % name)
+
+
+def gen_taptrees(ctx):
+    """script-path spends out of trees with several leaves: control blocks with 1, 2, 3 and 128 sibling hashes, the
+    leaf hash below and above its sibling; wrong / exchanged / missing / extra siblings, parity, leaf version,
+    internal key, control blocks of a wrong length, 129 siblings"""
+    r = ctx.rng
+    quick = ctx.tier == "quick"
+    keys = key_pool(ctx.seed)
+    emit = _Emit(ctx)
+    internal = keys[4]
+    rb = lambda n: bytes(r.getrandbits(8) for _ in range(n))       # noqa: E731
+    leaves = [[k.xonly(), 0xac] for k in keys[:4]]
+    lh = [tap_leaf_hash(_c05.ref_raw_script(S(c))) for c in leaves]
+    # (leaf index, path) — ((L0 L1) L2) L3
+    b01 = tap_branch(lh[0], lh[1])
+    b012 = tap_branch(b01, lh[2])
+    shapes = [(0, [lh[1]]), (1, [lh[0]]), (2, [b01]), (0, [lh[1], lh[2]]), (1, [lh[0], lh[2], lh[3]]), (3, [b012])]
+    if quick:
+        shapes = [shapes[0], shapes[1], shapes[3], shapes[4]]
+    for c, (li, path) in enumerate(shapes):
+        annex = b"\x50" + rb(3) if c == 2 else None
+        spk, place, cb = wrap_tap(leaves[li], internal, path, annex)
+        sp = HSpend(r, spk, place, SHAPES[c % 6])
+        ht = sp.ht(HT_SCHNORR[c % 7])
+        sg = keys[li].schnorr(sp.digest(ht, [b""]), ht)
+        order = "below" if tap_leaf_hash(_c05.ref_raw_script(S(leaves[li]))) < path[0] else "above"
+        yield from emit(sp, [sg], True, "leaf at depth %d (leaf hash %s its sibling)" % (len(path), order), corr=c % 2 == 0)
+        if len(path) != 2:
+            continue
+        # ---- the same spend with another control block (the witness is assembled by hand here)
+        raw = _c05.ref_raw_script(S(leaves[li]))
+
+        def alt(new_cb, script=raw, sig=sg):
+            a = HSpend.__new__(HSpend)
+            a.__dict__.update(sp.__dict__)
+            a.place = lambda items: ([], list(items) + [script, new_cb] + ([annex] if annex else []))
+            return a
+        flip = bytearray(cb)
+        flip[33 + r.randrange(64)] ^= 1 << r.randrange(8)
+        variants = [("a sibling hash with one bit flipped", bytes(flip)),
+                    ("the two sibling hashes exchanged", cb[:33] + cb[65:97] + cb[33:65]),
+                    ("the last sibling hash missing", cb[:65]),
+                    ("the first sibling hash missing", cb[:33] + cb[65:]),
+                    ("no sibling hashes", cb[:33]),
+                    ("an extra sibling hash", cb + rb(32)),
+                    ("the parity bit flipped", bytes([cb[0] ^ 1]) + cb[1:]),
+                    ("leaf version 0xc2", bytes([cb[0] ^ 2]) + cb[1:]),
+                    ("another internal key", cb[:1] + keys[5].xonly() + cb[33:]),
+                    ("one byte short", cb[:-1]),
+                    ("one byte long", cb + b"\x00"),
+                    ("32 bytes (no version byte)", cb[1:33]),
+                    ("empty", b"")]
+        for j, (name, ncb) in enumerate(variants):
+            if quick and j % 2 != (ctx.seed + c) % 2 and j not in (0, 1, 6, 10):
+                continue
+            yield from emit(alt(ncb), [sg], False, "control block with " + name, corr=j % 3 == 0)
+        other = _c05.ref_raw_script(S(leaves[2]))
+        yield from emit(alt(cb, script=other), [keys[2].schnorr(sp.digest(0, [b""]), 0)], False,
+                        "another leaf of the tree under this leaf's control block", corr=True)
+    # ---- the depth limit
+    for depth in (128, 129) if quick else (127, 128, 129, 130):
+        path = [rb(32) for _ in range(depth)]
+        spk, place, cb = wrap_tap(leaves[0], internal, path)
+        sp = HSpend(r, spk, place, SHAPES[depth % 6])
+        ref = HSpend.__new__(HSpend)           # the digest commits to the leaf, not to the path: the reference
+        ref.__dict__.update(sp.__dict__)       # (which defines none beyond 128 siblings) is asked with a short path
+        ref.place = lambda items, cb=cb: ([], list(items) + [_c05.ref_raw_script(S(leaves[0])), cb[:65]])
+        sg = keys[0].schnorr(ref.digest(0, [b""]), 0)
+        yield from emit(sp, [sg], True if depth <= 128 else None, "control block with %d sibling hashes" % depth, corr=True)
+
+
+def _grind(key, pred):
+    k = key.renonce(pred)
+    if k is None:
+        raise ValueError("no nonce of the wanted class found")
+    return k
+
+
+def gen_der(ctx):
+    """ECDSA signatures whose DER integers are 31 / 32 / 33 bytes long (r and s independently; 33-byte s = high S),
+    reached by stepping the nonce; p2pkh, p2wpkh and p2sh-p2wpkh"""
+    r = ctx.rng
+    quick = ctx.tier == "quick"
+    keys = key_pool(ctx.seed)
+    emit = _Emit(ctx)
+    combos = [(31, 32), (33, 31), (32, 33), (33, 33), (32, 32), (33, 32), (32, 31), (31, 33)]
+    for c, (rl, sl) in enumerate(combos[:4] if quick else combos):
+        key = keys[c % len(keys)]
+        sec = key.sec(compressed=c % 3 != 1)
+        kind = ("p2wpkh", "p2pkh", "p2sh-p2wpkh")[c % 3]
+        if kind == "p2pkh":
+            sp = HSpend(r, [0x76, 0xa9, _h160(sec), 0x88, 0xac], (lambda items: (_push(items), [])), SHAPES[c % 6])
+        elif kind == "p2wpkh":
+            sp = HSpend(r, [0, _h160(sec)], (lambda items: ([], list(items))), SHAPES[c % 6])
+        else:
+            redeem = b"\x00\x14" + _h160(sec)
+            sp = HSpend(r, [0xa9, _h160(redeem), 0x87], (lambda items, redeem=redeem: ([redeem], list(items))), SHAPES[c % 6])
+        ht = sp.ht(HT_ECDSA[c % 6])
+        z = sp.digest(ht, [b"\x30" * 71, sec])
+
+        def ok(cand, z=z, rl=rl, sl=sl):
+            rr, ss = cand.rs(z, high_s=(sl == 33))
+            return len(der_int(rr)) - 2 == rl and len(der_int(ss)) - 2 == sl
+        try:
+            kk = _grind(key, ok)
+        except ValueError:
+            ctx.label("der/no-nonce-found")
+            continue
+        sg = kk.ecdsa(z, ht, high_s=(sl == 33))
+        yield from emit(sp, [sg, sec], True, "%s, DER r of %d and s of %d bytes" % (kind, rl, sl), corr=True)
+        if c == 0:
+            rr, ss = kk.rs(z)
+            yield from emit(sp, [der(rr, ss, rpad=1) + bytes([ht]), sec], None, "DER r with a superfluous zero byte")
+            yield from emit(sp, [der(rr, ss)[:-1] + bytes([ht]), sec], False, "DER signature one byte short", corr=True)
+            yield from emit(sp, [der(rr, ss) + b"\x00" + bytes([ht]), sec], None, "DER signature with a trailing byte")
+            yield from emit(sp, [der(0, ss) + bytes([ht]), sec], False, "signature with r = 0", corr=True)
+            yield from emit(sp, [der(rr, 0) + bytes([ht]), sec], False, "signature with s = 0", corr=True)
+            yield from emit(sp, [der(rr, ss + N_ORD) + bytes([ht]), sec], False, "signature with s + n", corr=True)
+            yield from emit(sp, [der(rr + N_ORD, ss) + bytes([ht]), sec], False, "signature with r + n", corr=True)
+            yield from emit(sp, [der(rr, N_ORD - ss) + bytes([ht]), sec], None, "signature with n - s (high S)")
+            yield from emit(sp, [sg[:-1], sec], None, "signature without the hash type byte")
+
+
+def gen_shapes(ctx):
+    """scriptSig shapes of a p2sh spend around the `command > 96` guard of verify_input, redeem / witness scripts
+    whose length sits on a push-opcode or compact-size boundary, a signature made for another input with the same
+    script, schnorr signatures with trailing bytes"""
+    r = ctx.rng
+    quick = ctx.tier == "quick"
+    keys = key_pool(ctx.seed)
+    emit = _Emit(ctx)
+    K0, K1 = keys[0], keys[1]
+    # ---- op codes in a p2sh scriptSig that carries valid signatures
+    spk, place = wrap_script("p2sh", [0x51, K0.sec(), K1.sec(), 0x52, 0xae])
+    sp = HSpend(r, spk, place, SHAPES[0])
+    ht = sp.ht(0x83)
+    sg = K1.ecdsa(sp.digest(ht, [b"", b"\x30" * 71]), ht)
+    raw = place([])[0][-1]
+    for name, pre, verdict in (("OP_16", [0x60], True), ("OP_NOP", [0x61], None), ("OP_1NEGATE", [0x4f], True),
+                               ("OP_RESERVED", [0x50], None), ("OP_DUP after the dummy", None, None)):
+        a = HSpend.__new__(HSpend)
+        a.__dict__.update(sp.__dict__)
+        if pre is None:
+            a.place = lambda items: ([0, 0x76, 0x75] + _push(items[1:]) + [raw], [])
+        else:
+            a.place = lambda items, pre=pre: (pre + _push(items) + [raw], [])
+        yield from emit(a, [b"", sg], verdict, "p2sh scriptSig with %s and valid signatures" % name, corr=verdict is True)
+    # ---- the p2sh / witness rules fire at most once: scripts that leave the pattern of a rule behind
+    inner = b"\x00"                                  # OP_0 as a script: false
+    spk, place = wrap_script("p2sh", [inner, 0xa9, _h160(inner), 0x87])
+    yield from emit(HSpend(r, spk, place, SHAPES[2]), [], None, "p2sh redeem script <X> OP_HASH160 <h(X)> OP_EQUAL (X = OP_0)")
+    for kind in ("p2wsh", "p2sh-p2wsh"):
+        h20 = _h160(keys[0].sec())
+        spk, place = wrap_script(kind, [0, h20])
+        spn = HSpend(r, spk, place, SHAPES[0])
+        yield from emit(spn, [], None, kind + " witness script OP_0 <20 bytes> (a v0 program left on the stack)")
+        yield from emit(spn, [keys[0].ecdsa(spn.digest(1, []), 1), keys[0].sec()], None,
+                        kind + " witness script OP_0 <20 bytes> with signature and key below")
+        spk, place = wrap_script(kind, [0x51, _b32(keys[0].tweaked().px)])
+        yield from emit(HSpend(r, spk, place, SHAPES[1]), [b"\x01"], None,
+                        kind + " witness script OP_1 <32 bytes> (a v1 program left on the stack)")
+        if quick:
+            break
+    h20 = _h160(keys[1].sec())
+    spn = HSpend(r, [0, h20], (lambda items: ([], list(items))), SHAPES[3])
+    yield from emit(spn, [b"", h20], False, "p2wpkh with the witness <empty> <20 bytes> (a v0 program again)")
+    spk, place, _cb = wrap_tap([0x51, _b32(keys[1].tweaked().px)], keys[2])
+    yield from emit(HSpend(r, spk, place, SHAPES[4]), [], None, "tapscript leaf OP_1 <32 bytes> (a v1 program left on the stack)")
+    # ---- script lengths at the push-opcode / compact-size boundaries (padding: OP_NOP)
+    sizes = [("p2sh", 75), ("p2sh", 76), ("p2sh", 255), ("p2sh", 256), ("p2wsh", 252), ("p2wsh", 253), ("p2sh", 520),
+             ("p2wsh", 75), ("p2wsh", 76), ("p2sh-p2wsh", 255), ("p2sh-p2wsh", 256), ("p2wsh", 521), ("bare", 253)]
+    for c, (kind, size) in enumerate(sizes[:6] if quick else sizes):
+        key = keys[c % len(keys)]
+        body = [key.sec(), 0xac]
+        cmds = [0x61] * (size - 35) + body
+        spk, place = wrap_script(kind, cmds)
+        sp = HSpend(r, spk, place, SHAPES[c % 6])
+        ht = sp.ht(HT_ECDSA[c % 6])
+        yield from emit(sp, [key.ecdsa(sp.digest(ht, [b"\x30" * 71]), ht)], True,
+                        "%s script of %d bytes" % (kind, size), corr=c % 2 == 1)
+    # ---- two inputs spending the same script: each signature is valid for its own input only
+    for c, kind in enumerate(("p2wpkh", "p2pkh", "p2tr")):
+        if quick and c != ctx.seed % 3:
+            continue
+        key = keys[2 + c]
+        if kind == "p2tr":
+            tk = key.tweaked()
+            spk_cmds, place = [0x51, tk.xonly()], (lambda items: ([], list(items)))
+        elif kind == "p2wpkh":
+            spk_cmds, place = [0, _h160(key.sec())], (lambda items: ([], list(items)))
+        else:
+            spk_cmds, place = [0x76, 0xa9, _h160(key.sec()), 0x88, 0xac], (lambda items: (_push(items), []))
+        a = HSpend(r, spk_cmds, place, (2, 2, 0))
+        a.spent[1] = [a.spent[0][0], S(spk_cmds)]
+        a.ins[1][3] = a.ins[0][3]
+        b = HSpend.__new__(HSpend)
+        b.__dict__.update(a.__dict__)
+        b.idx = 1
+        sigs = []
+        for s_ in (a, b):
+            if kind == "p2tr":
+                sigs.append([tk.schnorr(s_.digest(0x83, [b""]), 0x83)])
+            else:
+                sigs.append([key.ecdsa(s_.digest(0x83, [b"\x30" * 71, key.sec()]), 0x83), key.sec()])
+        yield from emit(a, sigs[0], True, "%s: first of two inputs with the same script" % kind)
+        yield from emit(b, sigs[1], True, "%s: second of two inputs with the same script" % kind)
+        yield from emit(a, sigs[1], False, "%s: signature made for the other input with the same script and amount" % kind,
+                        corr=True)
+        yield from emit(b, sigs[0], False, "%s: signature made for the other input with the same script and amount" % kind)
+    # ---- key path: forms of the signature item
+    key = keys[3].tweaked()
+    sp = HSpend(r, [0x51, key.xonly()], (lambda items: ([], list(items))), SHAPES[1])
+    s64 = key.schnorr(sp.digest(0, [b""]), 0)
+    yield from emit(sp, [s64], True, "key path, 64-byte signature", corr=True)
+    yield from emit(sp, [s64 + b"\x01\x00"], None, "key path, 64-byte signature with two trailing bytes")
+    yield from emit(sp, [s64[:63]], False, "key path, 63-byte signature", corr=True)
+    yield from emit(sp, [b""], False, "key path, empty signature", corr=True)
+    s_all = key.schnorr(sp.digest(1, [b""]), 1)
+    yield from emit(sp, [s_all[:64]], False, "key path, SIGHASH_ALL signature without its hash type byte", corr=True)
+    yield from emit(sp, [s64 + b"\x01"], False, "key path, default signature relabelled SIGHASH_ALL")
+    untweaked = keys[3]
+    yield from emit(sp, [untweaked.schnorr(sp.digest(0, [b""]), 0)], False, "key path signed with the untweaked key", corr=True)
+    e_, s_ = s64[:32], int.from_bytes(s64[32:], "big")
+    yield from emit(sp, [e_ + _b32(N_ORD)], False, "key path, s = n")
+    if s_ + N_ORD < 2 ** 256:
+        yield from emit(sp, [e_ + _b32(s_ + N_ORD)], False, "key path, s + n", corr=True)
+    yield from emit(sp, [_b32(P_FLD) + s64[32:]], False, "key path, R.x = p")
+    yield from emit(sp, [bytes(32) + s64[32:]], False, "key path, R.x = 0", corr=True)
+    # ---- witness item counts at the compact-size boundary (the items below the signature are left on the stack)
+    for cnt_ in (0xfd,) if quick else (0xfc, 0xfd, 0xfe):
+        k_ = keys[1]
+        spk_, place_ = wrap_script("p2wsh", [k_.sec(), 0xac])
+        spw = HSpend(r, spk_, place_, SHAPES[2])
+        fill = [bytes([1 + i % 5]) for i in range(cnt_ - 2)]
+        yield from emit(spw, fill + [k_.ecdsa(spw.digest(1, [b""]), 1)], None, "p2wsh witness of %d items" % cnt_)
+    sp2 = HSpend(r, [0x51, key.xonly()], (lambda items: ([], list(items) + [b"\x50\x01\x02"])), SHAPES[3])
+    yield from emit(sp2, [key.schnorr(sp2.digest(2, [b""]), 2)], True, "key path with annex, SIGHASH_NONE", corr=True)
+    yield from emit(sp2, [key.schnorr(sp.digest(2, [b""]), 2)], False, "key path with annex, signed without the annex")
+
+
+# ----------------------------------------------------------------- library-signed spends of particular classes
+
+def fixed_spend(secret, kind="p2wpkh", compressed=True):
+    """a FIXED one-input transaction (nothing random) spending an output of the key `secret`, unsigned"""
+    p = PrivateKey(secret, compressed=compressed)
+    spk = p.point.p2wpkh_script() if kind == "p2wpkh" else p.point.p2pkh_script(compressed=compressed)
+    ti = TxIn(bytes(range(32)), 1)
+    ti._value, ti._script_pubkey = 123456, spk
+    out = TxOut(120000, P2PKHScriptPubKey(bytes(range(20))))
+    return p, Tx(2, [ti], [out], 0, network="mainnet", segwit=True)
+
+
+# secrets found by search (offline) for which the library's own RFC 6979 signature of fixed_spend(secret) has a DER
+# integer of a particular form; if signing or the digest change these are ordinary valid spends
+_GS = 0x1c060000000000000000000000000000
+GROUND_SECRETS = [(_GS + 0x340, "s-top-bytes-01-then-below-80"), (_GS + 0x5cf, "r-top-bytes-01-then-below-80"),
+                  (_GS + 0x1f0, "r-of-31-bytes"), (_GS + 0x78, "s-of-31-bytes"),
+                  (_GS + 0x07, "s-top-byte-01-then-high-bit"), (_GS + 0x15e, "r-top-byte-01-then-high-bit"),
+                  (_GS + 0x26, "r-top-byte-00-then-high-bit"), (_GS + 0x14, "s-top-byte-00-then-high-bit"),
+                  (_GS + 0x1f, "r-top-byte-7f"), (_GS + 0x01, "r-of-33-bytes")]
+
+
+def p_lib_signed(secret, kind, compressed, via):
+    """a spend of a fixed transaction signed THROUGH the library (sign_p2wpkh / sign_p2pkh / sign_input) verifies:
+    the signing call returns True and a freshly parsed copy verifies"""
+    kind = kind.decode() if isinstance(kind, bytes) else kind
+    p, tx = fixed_spend(secret, kind, bool(compressed))
+    try:
+        if via == 0:
+            res = quiet(tx.sign_p2wpkh if kind == "p2wpkh" else tx.sign_p2pkh, 0, p)
+        else:
+            res = quiet(tx.sign_input, 0, p)
+    except Exception as e:
+        return f"signing raised {type(e).__name__}: {e}"
+    if res is not True:
+        return f"the signing helper returned {res!r} for its own signature"
+    item = (tx.tx_ins[0].witness.items if kind == "p2wpkh" else tx.tx_ins[0].script_sig.commands)[0]
+    if not p_valid_spend(pack(tx, 0)) is None:
+        return "the library-signed spend (signature %s) does not verify after a round trip" % item.hex()
+    return None
+
+
+# ----------------------------------------------------------------- the library's tapscript multisig path
+
+def _combine_hashes(hs):
+    """root and sibling paths of the tree TapBranch.combine builds over the leaf hashes hs (halving)"""
+    if len(hs) == 1:
+        return hs[0], [[]]
+    half = len(hs) // 2
+    lr, lp = _combine_hashes(hs[:half])
+    rr, rp = _combine_hashes(hs[half:])
+    return tap_branch(lr, rr), [p + [rr] for p in lp] + [p + [lr] for p in rp]
+
+
+def _lib_multisig(salt, n, k, tree, leaf_i):
+    """library objects and the independent expectations of a k-of-n tapscript multisig output:
+    tree 0 = the single k-of-n leaf is the root, 1 = one k-of-k leaf per k-subset (TapBranch.combine),
+    2 = TapBranch(single leaf, that tree)"""
+    import random
+    from buidl.taproot import TapBranch
+    keys = key_pool(salt)
+    ks = sorted(keys[:n], key=lambda key: key.xonly())
+    internal = keys[n]
+
+    def leaf_cmds(sub, kk):
+        xs = [key.xonly() for key in sub]
+        cmds = [xs[0], 0xac]
+        if len(xs) > 1:
+            for x in xs[1:]:
+                cmds += [x, 0xba]
+            cmds += [0x50 + kk, 0x87]
+        return cmds
+    single_lib = MultiSigTapScript([key.P for key in keys[:n]], k).tap_leaf()
+    single_own = leaf_cmds(ks, k)
+    if tree == 0:
+        node, leaf, own, leaf_keys, path = single_lib, single_lib, single_own, ks, []
+    else:
+        subs = list(combinations(ks, k))
+        # the library is handed the points in pool order (unsorted); its leaves sort them
+        lib_leaves = [MultiSigTapScript([key.P for key in sub][::-1], k).tap_leaf() for sub in subs]
+        own_hashes = [tap_leaf_hash(_c05.ref_raw_script(S(leaf_cmds(sub, k)))) for sub in subs]
+        sub_root, paths = _combine_hashes(own_hashes)
+        li = leaf_i % len(subs)
+        leaf, own, leaf_keys, path = lib_leaves[li], leaf_cmds(subs[li], k), list(subs[li]), paths[li]
+        node = TapBranch.combine(lib_leaves)
+        if tree == 2:
+            path = path + [tap_leaf_hash(_c05.ref_raw_script(S(single_own)))]
+            node = TapBranch(single_lib, node)
+    spk, place, cb = wrap_tap(own, internal, path)
+    hs = HSpend(random.Random("c06-lib:%d" % salt), spk, place, SHAPES[salt % len(SHAPES)])
+    tx = _c05.mk_tx(hs.value([])[:1] + [[i[:4] + [[]] for i in hs.value([])[1]]] + hs.value([])[2:], hs.spent)
+    return keys, internal, node, leaf, leaf_keys, own, cb, spk, hs, tx
+
+
+def p_finalize_api(salt, n, k, tree, leaf_i, signers, rot):
+    """TapLeaf / TapBranch.control_block, P2TR output script, Tx.initialize_p2tr_multisig and
+    Tx.finalize_p2tr_multisig on a k-of-n tapscript multisig: the signatures (made here over the reference digest,
+    64 and 65 bytes long) are handed over in a rotated order, with or without empty entries; finalize must return
+    True and leave exactly the witness [signature or empty per key, last key first] + [script, control block]"""
+    keys, internal, node, leaf, leaf_keys, own, cb, spk, hs, tx = _lib_multisig(salt, n, k, tree, leaf_i)
+    lib_cb = node.control_block(internal.P, leaf)
+    if lib_cb is None or lib_cb.serialize() != cb:
+        return "control_block(internal, leaf) is %s, the control block of this leaf is %s" % (
+            None if lib_cb is None else lib_cb.serialize().hex(), cb.hex())
+    lib_spk = internal.P.p2tr_script(node.hash()).raw_serialize()
+    if lib_spk != _c05.ref_raw_script(S(spk)):
+        return "p2tr_script(root) is %s, BIP341 gives %s" % (lib_spk.hex(), _c05.ref_raw_script(S(spk)).hex())
+    raw = _c05.ref_raw_script(S(own))
+    if leaf.tap_script.raw_serialize() != raw:
+        return "the leaf script is %s, expected %s" % (leaf.tap_script.raw_serialize().hex(), raw.hex())
+    m = len(leaf_keys)
+    per_key = [b""] * m
+    for j, i in enumerate(signers):
+        ht = hs.ht(HT_SCHNORR[(salt + j) % 7])
+        per_key[i] = leaf_keys[i].schnorr(hs.digest(ht, [b""] * m), ht)
+    handed = per_key[rot % m:] + per_key[:rot % m]
+    if rot >= m:
+        handed = [x for x in handed if x]
+    idx = hs.idx
+    try:
+        quiet(tx.initialize_p2tr_multisig, idx, lib_cb, leaf.tap_script)
+        res = quiet(tx.finalize_p2tr_multisig, idx, handed)
+    except Exception as e:
+        return f"initialize / finalize raised {type(e).__name__}: {e}"
+    want = per_key[::-1] + [raw, cb]
+    got = list(tx.tx_ins[idx].witness.items)
+    if got != want:
+        return "finalize_p2tr_multisig left the witness %s, expected %s" % ([x.hex() for x in got], [x.hex() for x in want])
+    enough = len(signers) == (k if m > 1 else 1)
+    if bool(res) != enough or (res is not True and res is not False):
+        return f"finalize_p2tr_multisig returned {res!r} with {len(signers)} of the {k} required signatures"
+    return None
+
+
+API_SCENARIOS = ["finalize-before-initialize", "initialize-with-a-plain-tapscript", "finalize-after-witness-cut-to-one-item",
+                 "finalize-with-a-63-byte-signature", "finalize-with-a-66-byte-signature", "finalize-with-a-foreign-signature",
+                 "sign_input-on-a-p2sh-multisig-output", "finalize-after-tap_script-cleared",
+                 "finalize-with-a-valid-signature-followed-by-a-63-byte-one"]
+
+
+def p_p2tr_api(scenario, salt):
+    """misuse of the tapscript multisig helpers never yields a spend reported valid: the call raises, or returns
+    False; where the precondition of the helper is violated it raises and leaves the witness alone"""
+    from buidl.taproot import TapScript
+    name = API_SCENARIOS[scenario]
+    keys, internal, node, leaf, leaf_keys, own, cb, spk, hs, tx = _lib_multisig(salt, 2, 1, 0, 0)
+    idx = hs.idx
+    ti = tx.tx_ins[idx]
+    lib_cb = node.control_block(internal.P, leaf)
+    good = leaf_keys[0].schnorr(hs.digest(0, [b"", b""]), 0)
+
+    def call(f, *a):
+        try:
+            return ("returned", quiet(f, *a))
+        except Exception as e:
+            return ("raised", type(e).__name__)
+    if name == "finalize-before-initialize":
+        out, before = call(tx.finalize_p2tr_multisig, idx, [good]), []
+        must_raise = True
+    elif name == "initialize-with-a-plain-tapscript":
+        out = call(tx.initialize_p2tr_multisig, idx, lib_cb, TapScript(list(leaf.tap_script.commands)))
+        if out[0] == "raised":
+            out = call(tx.finalize_p2tr_multisig, idx, [good])
+        before, must_raise = None, True
+    elif name in ("finalize-after-witness-cut-to-one-item", "finalize-after-tap_script-cleared"):
+        quiet(tx.initialize_p2tr_multisig, idx, lib_cb, leaf.tap_script)
+        if name.endswith("one-item"):
+            ti.witness.items.pop()
+        else:
+            ti.tap_script = None
+        before = list(ti.witness.items)
+        out, must_raise = call(tx.finalize_p2tr_multisig, idx, [good]), True
+    elif name in ("finalize-with-a-63-byte-signature", "finalize-with-a-66-byte-signature",
+                  "finalize-with-a-valid-signature-followed-by-a-63-byte-one"):
+        quiet(tx.initialize_p2tr_multisig, idx, lib_cb, leaf.tap_script)
+        before = None
+        bad = good[:63] if "63" in name else good + b"\x01\x00"
+        out, must_raise = call(tx.finalize_p2tr_multisig, idx, [good, bad] if "followed" in name else [bad]), True
+    elif name == "finalize-with-a-foreign-signature":
+        quiet(tx.initialize_p2tr_multisig, idx, lib_cb, leaf.tap_script)
+        before = None
+        out, must_raise = call(tx.finalize_p2tr_multisig, idx, [keys[5].schnorr(hs.digest(0, [b"", b""]), 0)]), False
+        if out == ("returned", False) and ti.witness.items[:2] != [b"", b""]:
+            return f"{name}: the foreign signature was placed in the witness"
+    else:
+        sp_, place = wrap_script("p2sh", [0x51, keys[0].sec(), 0x51, 0xae])
+        ti._script_pubkey = _c05.mk_script(S(sp_))
+        before = None
+        out, must_raise = call(tx.sign_input, idx, PrivateKey(keys[0].d)), True
+    if out == ("returned", True) or (out[0] == "returned" and out[1] not in (False, None)):
+        return f"{name}: the helper returned {out[1]!r}"
+    if must_raise and out[0] != "raised":
+        return f"{name}: the helper did not refuse (returned {out[1]!r})"
+    if before is not None and list(ti.witness.items) != before:
+        return f"{name}: the helper refused but changed the witness"
+    if "valid-signature" not in name and verdict(tx, idx):
+        return f"{name}: the input verifies afterwards"
+    return None
+
+
+def p_tx_verify(c, expect, label):
+    """Tx.verify(): true iff every input verifies (and the fee covers the virtual size)"""
+    tx, _ = unpack(c)
+    try:
+        got = quiet(tx.verify)
+    except Exception as e:
+        got = f"raised {type(e).__name__}"
+        if not expect:
+            return None             # an exception is "not reported valid"
+    if got is not bool(expect):
+        return f"Tx.verify() is {got!r}, expected {bool(expect)}: {label.decode() if isinstance(label, bytes) else label}"
+    return None
+
+
+def gen_api(ctx):
+    r = ctx.rng
+    quick = ctx.tier == "quick"
+    salt = ctx.seed
+    # ---- library tapscript multisig, every signer subset
+    plans = [(2, 1, 0), (3, 2, 0), (3, 2, 1), (3, 2, 2)] if quick else \
+        [(n, k, t) for n in range(1, 5) for k in range(1, n + 1) for t in (0, 1, 2) if not (t and n == 1)]
+    c = 0
+    for (n, k, tree) in plans:
+        m = n if tree == 0 else k
+        subsets = list(combinations(range(m), k if tree == 0 else m))
+        n_leaves = 1 if tree == 0 else len(list(combinations(range(n), k)))
+        for leaf_i in range(n_leaves):
+            if quick and tree and leaf_i != (n_leaves - 1 if tree == 1 else 1):
+                continue
+            for sub in subsets:
+                if quick and (n, k, tree) == (3, 2, 0) and sub != (0, 2):
+                    continue
+                c += 1
+                rot = c % (2 * m)
+                ctx.label("finalize_api/tree%d/%d-of-%d" % (tree, k, n))
+                yield ("prop", "finalize_api", [salt, n, k, tree, leaf_i, list(sub), rot])
+    # one signature short: finalize returns False
+    ctx.label("finalize_api/too-few")
+    yield ("prop", "finalize_api", [salt, 3, 2, 0, 0, [1], 1])
+    for s in range(len(API_SCENARIOS)):
+        ctx.label("p2tr_api/" + API_SCENARIOS[s])
+        yield ("prop", "p2tr_api", [s, salt])
+    # ---- library signatures of particular DER classes, uncompressed keys, sign_input
+    for j, (sec, what) in enumerate(GROUND_SECRETS):
+        if quick and j not in (0, 1, 2 + salt % 2):
+            continue
+        ctx.label("lib_signed/" + what)
+        yield ("prop", "lib_signed", [sec, "p2wpkh", 1, 0])
+    base = r.randrange(2 ** 128, 2 ** 250)
+    ctx.label("lib_signed/p2pkh-uncompressed")
+    yield ("prop", "lib_signed", [base, "p2pkh", 0, 0])
+    ctx.label("lib_signed/sign_input")
+    yield ("prop", "lib_signed", [base + 1, "p2pkh", 1, 1])
+    if not quick:
+        yield ("prop", "lib_signed", [base + 2, "p2wpkh", 1, 1])
+        yield ("prop", "lib_signed", [base + 3, "p2pkh", 0, 1])
+    # ---- Tx.verify over all inputs
+    kinds = ["p2wpkh", "p2pkh", "p2tr-key"]
+    bsalt = r.getrandbits(40)
+    try:
+        tx = build_all(_rnd(bsalt), kinds, via_sign_input=True)
+        pack(tx, 0)
+    except Exception:
+        ctx.label("library-signing-raised")
+        yield ("prop", "built_all", [kinds, bsalt, 1])
+        return
+    ctx.label("tx_verify/all-valid")
+    yield ("prop", "tx_verify", [pack(tx, 0), 1, "every input signed"])
+    for i in range(3):
+        t2 = copy.deepcopy(tx)
+        ti = t2.tx_ins[i]
+        if kinds[i] == "p2pkh":
+            ti.script_sig.commands[0] = ti.script_sig.commands[0][:-1] + b"\x02"
+        else:
+            it = ti.witness.items
+            it[0] = it[0][:64] + b"\x02" if kinds[i] == "p2tr-key" else it[0][:-1] + b"\x02"
+        ctx.label("tx_verify/one-invalid")
+        yield ("prop", "tx_verify", [pack(t2, 0), 0, "input %d of 3 carries a relabelled signature" % i])
+    t2 = copy.deepcopy(tx)
+    t2.tx_ins[1]._value = sum(o.amount for o in t2.tx_outs) - t2.tx_ins[0]._value - t2.tx_ins[2]._value
+    ctx.label("tx_verify/no-fee")
+    yield ("prop", "tx_verify", [pack(t2, 0), 0, "every input signed, fee 0"])
+
+
+def _rnd(salt):
+    import random
+    return random.Random("c06-build:%d" % salt)
+
+
+def p_built_spend(kind, m, n, n_in, salt, signers):
+    """signing a spend of this type through the library (and listing its mutation catalogue) does not raise, and
+    the spend verifies"""
+    kind = kind.decode() if isinstance(kind, bytes) else kind
+    try:
+        sp = build(kind, _rnd(salt), m, n, n_in, signers=list(signers))
+        list(mutations(_rnd(salt + 1), sp))
+        c0 = pack(sp.tx, sp.idx)
+    except Exception as e:
+        return f"signing a {kind} {m}-of-{n} spend through the library raised {type(e).__name__}: {e}"
+    return p_valid_spend(c0)
+
+
+def p_built_all(kinds, salt, via):
+    """a transaction whose inputs are all signed through the library: signing does not raise, every input verifies"""
+    kinds = [k.decode() if isinstance(k, bytes) else k for k in kinds]
+    try:
+        tx = build_all(_rnd(salt), kinds, via_sign_input=bool(via))
+        cs = [pack(tx, i) for i in range(len(kinds))]
+    except Exception as e:
+        return f"signing the inputs {kinds} through the library raised {type(e).__name__}: {e}"
+    for i, c in enumerate(cs):
+        d = p_valid_spend(c)
+        if d:
+            return f"input {i} ({kinds[i]}): {d}"
+    return None
+
+
+PROPS.update({"built_spend": p_built_spend, "built_all": p_built_all, "finalize_api": p_finalize_api, "p2tr_api": p_p2tr_api, "lib_signed": p_lib_signed,
+              "tx_verify": p_tx_verify})
+
+def gen_new(ctx):
+    for g in (gen_subsets, gen_stack_bounds, gen_bad_keys, gen_taptrees, gen_der, gen_shapes, gen_api):
+        yield from g(ctx)
+
+
 KINDS_SINGLE = ["p2pkh", "p2wpkh", "p2sh-p2wpkh", "p2tr-key"]
 KINDS_MULTI = ["p2sh", "p2wsh", "p2sh-p2wsh", "p2tr-script"]
 
@@ -604,6 +1746,9 @@ def generate(ctx):
             ctx.label("handmade_spend/" + kname)
             yield ("prop", "handmade_spend", [kind_i, n_in, n_out, idx, combos[(j + kind_i) % len(combos)],
                                               1000 + 17 * kind_i + j, 1 if ctx.tier == "quick" else 0])
+    # hand-assembled spends (independent builder): enumerated signer subsets, stack depths at the signature op codes,
+    # malformed keys, trees of leaves, DER classes, script sizes; then the library's own tapscript / signing helpers
+    yield from gen_new(ctx)
     # spends
     plan = []
     for kind in KINDS_SINGLE:
@@ -617,8 +1762,15 @@ def generate(ctx):
     # one transaction object with every input signed: the inputs verified in several orders on ONE object, then
     # an output edited in place and restored
     for mode in (0, 1):
-        tx = build_all(r, ["p2wpkh", "p2tr-key", "p2pkh"] if mode == 0 else ["p2sh-p2wpkh", "p2pkh", "p2wpkh"])
-        cs = [pack(tx, i) for i in range(3)]
+        kinds3 = ["p2wpkh", "p2tr-key", "p2pkh"] if mode == 0 else ["p2sh-p2wpkh", "p2pkh", "p2wpkh"]
+        salt = r.getrandbits(40)
+        try:
+            tx = build_all(_rnd(salt), kinds3)
+            cs = [pack(tx, i) for i in range(3)]
+        except Exception:
+            ctx.label("library-signing-raised")
+            yield ("prop", "built_all", [kinds3, salt, 0])
+            continue
         t2 = copy.deepcopy(tx)
         t2.tx_outs[1].amount -= 1
         ctx.label("reuse/all-inputs-one-object")
@@ -630,13 +1782,21 @@ def generate(ctx):
     n_reuse = 0
     valids = []
     for (kind, m, n, n_in) in plan:
-        sp = build(kind, r, m, n, n_in)
+        salt = r.getrandbits(40)
+        try:
+            sp = build(kind, _rnd(salt), m, n, n_in)
+            catalogue = list(mutations(_rnd(salt + 1), sp))
+            c0 = pack(sp.tx, sp.idx)
+            ma0 = model_args(c0)
+        except Exception:       # a defect of the signing helpers must not stop case generation: replayable case
+            ctx.label("library-signing-raised")
+            yield ("prop", "built_spend", [kind, m, n, n_in, salt, []])
+            continue
         ctx.label("spend/" + kind)
-        c0 = pack(sp.tx, sp.idx)
         yield ("prop", "valid_spend", [c0])
-        yield ("corr", "verify_input", model_args(c0))
+        yield ("corr", "verify_input", ma0)
         by_label = {}
-        for label, tx, unauth in mutations(r, sp):
+        for label, tx, unauth in catalogue:
             try:
                 cm = pack(tx, sp.idx)
                 ma = model_args(cm)
@@ -663,6 +1823,15 @@ def generate(ctx):
                 yield ("prop", "reuse", [seq, mode | (2 if single else 0)])
             n_reuse += 1
         valids.append(((kind, m, n), c0))
+    # ---- thorough tier: the library's own builders with every signer subset (n <= 4)
+    if ctx.tier != "quick":
+        for kind in KINDS_MULTI:
+            for n in (2, 3, 4):
+                for m in range(1, n + 1):
+                    for sub in combinations(range(n), m):
+                        salt = r.getrandbits(40)
+                        ctx.label("spend-enumerated/" + kind)
+                        yield ("prop", "built_spend", [kind, m, n, 1 + salt % 3, salt, list(sub)])
     # ---- ONE object turned into different valid spends one after the other (other keys, scripts, witnesses,
     # numbers of inputs), and back to the first
     if ctx.tier == "quick":
